@@ -127,8 +127,12 @@ Definition trav_one (out : N -> list N) (n : N) (fuel : nat) (o : trav_obs) : Z 
     (32, if t_status o =? 2 then None else Some 0)
   else
     let r := Z.to_N (t_root o) in
-    let pre := preorder out fuel r in
-    let post := postorder out fuel r in
+    (* preorder / postorder are, by definition, the node projections of run_visit true false /
+       run_visit false true (Model/Order.v); each traversal is run once and shared *)
+    let ent := run_visit out true false fuel r in
+    let ext := run_visit out false true fuel r in
+    let pre := option_map (map ev_node) ent in      (* = preorder out fuel r *)
+    let post := option_map (map ev_node) ext in     (* = postorder out fuel r *)
     let eul := euler out fuel r in
     let bits := match pre with Some l => trav_bits out n r l | None => 0 end in
     (bits,
@@ -137,8 +141,8 @@ Definition trav_one (out : N -> list N) (n : N) (fuel : nat) (o : trav_obs) : Z 
                    oeq (oZs post) (t_post o);
                    oeq (oZs (option_map reverse post)) (t_rev o);
                    oeq (option_map (map ev_code) eul) (t_eul o);
-                   oeq (option_map (map ev_code) (run_visit out true false fuel r)) (t_ent o);
-                   oeq (option_map (map ev_code) (run_visit out false true fuel r)) (t_ext o) ]).
+                   oeq (option_map (map ev_code) ent) (t_ent o);
+                   oeq (option_map (map ev_code) ext) (t_ext o) ]).
 
 Fixpoint trav_all (out : N -> list N) (n : N) (fuel : nat) (l : list trav_obs) (idx bits : Z) : Z * option (Z * Z) :=
   match l with
